@@ -49,6 +49,13 @@ Theorem C16_places : forall (d : Z) (x : dec),
 Proof. exact decimal_places_ok. Qed.
 Print Assumptions C16_places.
 
+(* The domain of C16_places is exact: when the rounded value would need more than 28 digits the
+   helper raises InvalidOperation instead of returning a value. *)
+Theorem C16_places_outside : forall (d : Z) (x : dec),
+  0 <= d <= 1000026 -> fitsb d x = false -> decimal_places d x = Err DecimalInvalid.
+Proof. exact decimal_places_err. Qed.
+Print Assumptions C16_places_outside.
+
 (* CONVERSION: every key of the schema vocabulary is present and yields a value of the named
    type, for an argument of any type (key 0 = None returns the argument itself). *)
 Theorem C16_conversion_types : forall key arg : Z,
